@@ -215,6 +215,9 @@ func (e *Exec) execInstr(f *Frame, b *ssa.BasicBlock, ins ssa.Instruction, st *S
 			e.boxType[bx] = x.X.Type()
 		}
 		e.boxFacts(x.X.Type(), e.asTerm(v))
+		if strings.HasSuffix(types.TypeString(x.X.Type(), nil), "hooks.TooManyRequestError") {
+			e.assume(e.errPred("isTMR", bx), "a *TooManyRequestError is classified as such by errors.As")
+		}
 	case *ssa.ChangeInterface:
 		v := e.val(f, x.X)
 		f.vals[x] = Val{T: x.Type(), Term: v.Term}
@@ -255,7 +258,10 @@ func (e *Exec) execInstr(f *Frame, b *ssa.BasicBlock, ins ssa.Instruction, st *S
 		e.setComp(st, n, so, Store(h, r, fmt.Sprintf("((as const (Array Int %s)) %s)", e.reg.sortOf(sl.Elem()), e.reg.zero(sl.Elem()))))
 		f.vals[x] = Val{T: x.Type(), Term: e.define(name(x), "Slice", app("mk_slice", r, "0", ln.Term, cp.Term))}
 	case *ssa.MakeChan:
-		f.vals[x] = Val{T: x.Type(), Term: e.freshRef(st, "chan")}
+		r := e.freshRef(st, "chan")
+		c := e.comp(st, "CLOSED", "(Array Int Bool)")
+		e.setComp(st, "CLOSED", "(Array Int Bool)", Store(c, r, "false"))
+		f.vals[x] = Val{T: x.Type(), Term: r}
 	case *ssa.Slice:
 		f.vals[x] = e.sliceOp(f, x, st, reach)
 	case *ssa.Lookup:
